@@ -458,8 +458,27 @@ func buildC12(tier string) *core.Plan {
 			c.Outcome("order-ok")
 		}}
 
+	// the copies carry the body's values unchanged, whatever they are made of
+	exactBodies := []map[string]any{
+		{"s": "\nlead", "i": "$repeat"},
+		{"t": "\tq\n", "u": " x", "i": "$repeat"},
+		{"m": map[string]any{"<<": map[string]any{"k": 1}}, "i": "$repeat"},
+		{"f": 2.5, "g": 1e21, "h": 9007199254740993, "l": []any{"\n", []any{}}, "e": map[string]any{}, "i": "$repeat"},
+		{"long": strings.Repeat("x", 5000), "i": `$"{$repeat}"`},
+	}
+	exact := core.Space{Name: "copies-are-exact", N: int64(len(exactBodies)) * 3,
+		Desc: func(i int64) any { return map[string]any{"body": exactBodies[i/3], "count": i%3 + 1} },
+		Run: func(c *core.Ctx, i int64) {
+			d := core.Clone(exactBodies[i/3]).(map[string]any)
+			d["$repeat"] = int(i%3) + 1
+			c12Check(c, "hand-expansion-exact", d)
+			n := core.Clone(exactBodies[i/3]).(map[string]any)
+			n["$repeat"] = map[string]any{"x": int(i%3) + 1}
+			c12Check(c, "hand-expansion-exact", n)
+		}}
+
 	return &core.Plan{
-		Spaces: []core.Space{docLevel, namedSpace, nestedSpace, layered, order},
+		Spaces: []core.Space{docLevel, namedSpace, nestedSpace, layered, order, exact},
 		Rule: "every body tree up to N nodes whose leaves and keys use $repeat and {$repeat} x every count 0..max and 9 non-integer counts, at document level (map and list roots), nested in lists and maps (with and without an outer repeat), " +
 			"1-3 named counts with every assignment 0..named_count_max, and counts overridden by an upper layer; distinct by construction",
 		Assumptions: []string{"differential oracle: eval(D) equals the evaluation of the hand-expanded stream (textual substitution of the index, copies in index order, named products in lexicographic name order)",
